@@ -28,7 +28,48 @@ def gen_move(rng):
     return dict(stacks=stacks, lat=[rng.choice([0, 1, 5000])], jit=[1], script=script, horizon=5_000_000)
 
 
+def gen_fd_two(rng):
+    """two controller applications on ONE FD ECU send short groups with a time limit to the same destination within one
+    collection window: whatever the packing, each group leaves in a frame that carries the address of the CA that sent it"""
+    a1, a2 = rng.sample(range(0x20, 0x60), 2)
+    dest = rng.choice([0x90, 255])
+    stacks = [dict(dll='j1939-22', max_cmdt=3, subs=[], cas=[dict(name=0x100 + i, addr=a, bypass=True, subs=[1 + i], req=[]) for i, a in enumerate((a1, a2))]),
+              dict(dll='j1939-22', max_cmdt=3, subs=[dict(cid=20, filt=0x90), dict(cid=21, filt=None)], cas=[])]
+    script = []
+    t = 1000
+    groups = []
+    for i in range(rng.randint(2, 7)):
+        t += rng.choice([0, 0, 100, 3000, 30000, 120000])
+        ca = rng.choice([0, 1])
+        pf, ps = (rng.randrange(0x50, 0xE0), dest) if dest != 255 else (rng.randint(240, 255), rng.randrange(256))
+        pl = dict(seed=rng.getrandbits(24), len=rng.choice([3, 8, 20, 40]))
+        tl = rng.choice([20000, 50000, 100000])
+        script.append(dict(t=t, s=0, op='ca_send', ca=ca, a=[0, pf, ps, 6, pl, tl]))
+        groups.append(dict(ca=ca, payload=pl))
+    return dict(stacks=stacks, lat=[1], jit=[1], script=script, horizon=t + 1_000_000, oracle_only=True,
+                meta=dict(kind='fd-two-cas', addrs=[a1, a2], groups=groups))
+
+
+def oracle_fd_two(sc, res):
+    import p_c11
+    from scen import payload
+    v = []
+    m = sc['meta']
+    owner = {tuple(payload(g['payload'])): m['addrs'][g['ca']] for g in m['groups']}
+    for e in res.trace:
+        if e[2] == 'tx' and e[1] == 0 and ((e[3] >> 16) & 0xFF) == 0x25:
+            sa = e[3] & 0xFF
+            for g in (p_c11.decode_mpg(e[6]) or []):
+                want = owner.get(tuple(g[3]))
+                if want is not None and want != sa:
+                    v.append(dict(kind='group-sent-under-another-applications-address', frame_sa=sa, sender_address=want, length=len(g[3])))
+                    return v
+    return v
+
+
 def gen(rng, k):
+    if k % 12 == 7:
+        return gen_fd_two(rng)
     if k % 6 == 5:
         return gen_move(rng)
     aac = rng.random() < 0.5
@@ -95,6 +136,8 @@ def gen(rng, k):
 
 
 def oracle(sc, res):
+    if sc.get('meta', {}).get('kind') == 'fd-two-cas':
+        return oracle_fd_two(sc, res)
     v = []
     for ev, r in res.returns:
         if ev['op'] not in ('ca_send', 'ca_send_message', 'ca_request') or ev['s'] != 0:
